@@ -1,7 +1,10 @@
 package checks
 
 import (
+	"context"
+	"errors"
 	"fmt"
+	"io"
 	"sort"
 	"strings"
 	"syscall"
@@ -19,11 +22,51 @@ func init() {
 }
 
 type c29Scenario struct {
-	name  string
-	kind  string // operation kind for the key
-	prep  func(w *mcfs.World)
-	run   func(r *git.Repository, w *mcfs.World) error
+	name string
+	kind string // operation kind for the key
+	prep func(w *mcfs.World)
+	run  func(r *git.Repository, w *mcfs.World) error
+	// fkind is the operation kind used in the key of an injected-fault finding (default: kind): the scenarios that
+	// only vary the state or the options of one operation share the operation's fault classes
+	fkind string
+	// thoroughFaults: the per-call fault enumeration of this scenario runs in the thorough tier only (the scenario
+	// varies the state or options of an operation whose fault sites the quick tier already enumerates)
+	thoroughFaults bool
 }
+
+type c29FailingSigner struct{}
+
+func (c29FailingSigner) Sign(ctx context.Context, message io.Reader) ([]byte, error) {
+	return nil, errors.New("signing key unavailable")
+}
+
+// c29RawObject stores an object without any validation (so that trees may reference objects that are absent).
+func c29RawObject(w *mcfs.World, t plumbing.ObjectType, data []byte) plumbing.Hash {
+	_, st, err := openRepo(w, "/wt/.git", "/wt")
+	if err != nil {
+		fw.Abort("open: %v", err)
+	}
+	o := &plumbing.MemoryObject{}
+	o.SetType(t)
+	o.Write(data)
+	h, err := st.SetEncodedObject(o)
+	if err != nil {
+		fw.Abort("raw object: %v", err)
+	}
+	return h
+}
+
+// c29Commit writes a commit (parent: parent) whose root tree has the given raw entries (mode, name, id).
+func c29Commit(w *mcfs.World, parent plumbing.Hash, entries [][3]string) plumbing.Hash {
+	var tb []byte
+	for _, e := range entries {
+		tb = append(tb, []byte(e[0]+" "+e[1]+"\x00")...)
+		tb = append(tb, plumbing.NewHash(e[2]).Bytes()...)
+	}
+	tree := c29RawObject(w, plumbing.TreeObject, tb)
+	return c29RawObject(w, plumbing.CommitObject, []byte(fmt.Sprintf("tree %s\nparent %s\nauthor V <v@example.com> 1700000300 +0000\ncommitter V <v@example.com> 1700000300 +0000\n\nincomplete\n", tree, parent)))
+}
+
 
 // c29Snapshot renders HEAD, all references, the decoded index and the tracked worktree files.
 func c29Snapshot(w *mcfs.World) map[string]string {
@@ -107,75 +150,75 @@ func runC29(c *fw.Ctx) {
 	scenarios := []c29Scenario{
 		{"Checkout(branch b) with an unstaged edit", "Checkout", dirtyA, func(r *git.Repository, w *mcfs.World) error {
 			return wtOf(r).Checkout(&git.CheckoutOptions{Branch: "refs/heads/b"})
-		}},
+		}, "", false},
 		{"Checkout(-b new) with an unstaged edit", "Checkout(create)", dirtyA, func(r *git.Repository, w *mcfs.World) error {
 			return wtOf(r).Checkout(&git.CheckoutOptions{Branch: "refs/heads/new", Create: true, Hash: c1})
-		}},
+		}, "", false},
 		{"Checkout(-b b) where b exists", "Checkout(create)", nil, func(r *git.Repository, w *mcfs.World) error {
 			return wtOf(r).Checkout(&git.CheckoutOptions{Branch: "refs/heads/b", Create: true})
-		}},
+		}, "", false},
 		{"Checkout(hash c1) with an unstaged edit", "Checkout", dirtyA, func(r *git.Repository, w *mcfs.World) error {
 			return wtOf(r).Checkout(&git.CheckoutOptions{Hash: c1})
-		}},
+		}, "", false},
 		{"Checkout(missing branch)", "Checkout", nil, func(r *git.Repository, w *mcfs.World) error {
 			return wtOf(r).Checkout(&git.CheckoutOptions{Branch: "refs/heads/nope"})
-		}},
+		}, "", false},
 		{"Checkout(hash of a missing object)", "Checkout", nil, func(r *git.Repository, w *mcfs.World) error {
 			return wtOf(r).Checkout(&git.CheckoutOptions{Hash: plumbing.NewHash("cccccccccccccccccccccccccccccccccccccccc")})
-		}},
+		}, "", false},
 		{"Checkout(invalid options: hash and create without branch)", "Checkout", nil, func(r *git.Repository, w *mcfs.World) error {
 			return wtOf(r).Checkout(&git.CheckoutOptions{Hash: c1, Branch: "refs/heads/b", Force: true, Keep: true})
-		}},
+		}, "", false},
 		{"Checkout(branch b) clean", "Checkout", nil, func(r *git.Repository, w *mcfs.World) error {
 			return wtOf(r).Checkout(&git.CheckoutOptions{Branch: "refs/heads/b"})
-		}},
+		}, "", false},
 		{"Reset(merge, c1) with an unstaged edit", "Reset(merge)", dirtyA, func(r *git.Repository, w *mcfs.World) error {
 			return wtOf(r).Reset(&git.ResetOptions{Mode: git.MergeReset, Commit: c1})
-		}},
+		}, "", false},
 		{"Reset(keep, c1) with a conflicting edit", "Reset(keep)", dirtyA, func(r *git.Repository, w *mcfs.World) error {
 			return wtOf(r).Reset(&git.ResetOptions{Mode: git.KeepReset, Commit: c1})
-		}},
+		}, "", false},
 		{"Reset(hard, missing object)", "Reset(hard)", nil, func(r *git.Repository, w *mcfs.World) error {
 			return wtOf(r).Reset(&git.ResetOptions{Mode: git.HardReset, Commit: plumbing.NewHash("cccccccccccccccccccccccccccccccccccccccc")})
-		}},
+		}, "", false},
 		{"Reset(hard, c1) clean", "Reset(hard)", nil, func(r *git.Repository, w *mcfs.World) error {
 			return wtOf(r).Reset(&git.ResetOptions{Mode: git.HardReset, Commit: c1})
-		}},
+		}, "", false},
 		{"Commit with nothing staged", "Commit", nil, func(r *git.Repository, w *mcfs.World) error {
 			_, err := wtOf(r).Commit("m\n", &git.CommitOptions{Author: fixedSig})
 			return err
-		}},
+		}, "", false},
 		{"Commit of a staged file", "Commit", stagedZ, func(r *git.Repository, w *mcfs.World) error {
 			_, err := wtOf(r).Commit("m\n", &git.CommitOptions{Author: fixedSig})
 			return err
-		}},
+		}, "", false},
 		{"Add(missing path)", "Add", nil, func(r *git.Repository, w *mcfs.World) error {
 			_, err := wtOf(r).Add("does-not-exist")
 			return err
-		}},
-		{"Add(edited a)", "Add", dirtyA, func(r *git.Repository, w *mcfs.World) error { _, err := wtOf(r).Add("a"); return err }},
+		}, "", false},
+		{"Add(edited a)", "Add", dirtyA, func(r *git.Repository, w *mcfs.World) error { _, err := wtOf(r).Add("a"); return err }, "", false},
 		{"Restore(staged, missing path)", "Restore", nil, func(r *git.Repository, w *mcfs.World) error {
 			return wtOf(r).Restore(&git.RestoreOptions{Staged: true, Files: []string{"does-not-exist"}})
-		}},
+		}, "", false},
 		{"Restore(worktree only)", "Restore", dirtyA, func(r *git.Repository, w *mcfs.World) error {
 			return wtOf(r).Restore(&git.RestoreOptions{Worktree: true, Files: []string{"a"}})
-		}},
+		}, "", false},
 		{"Restore(staged+worktree, a) after staging an edit", "Restore", func(w *mcfs.World) {
 			dirtyA(w)
 			r, _, _ := openRepo(w, "/wt/.git", "/wt")
 			wtOf(r).Add("a")
 		}, func(r *git.Repository, w *mcfs.World) error {
 			return wtOf(r).Restore(&git.RestoreOptions{Staged: true, Worktree: true, Files: []string{"a"}})
-		}},
+		}, "", false},
 		{"Merge(non fast-forward)", "Merge", diverge, func(r *git.Repository, w *mcfs.World) error {
 			return r.Merge(*plumbing.NewHashReference("refs/heads/b", c1), git.MergeOptions{Strategy: git.FastForwardMerge})
-		}},
+		}, "", false},
 		{"Pull(non fast-forward)", "Pull", diverge, func(r *git.Repository, w *mcfs.World) error {
 			return wtOf(r).Pull(&git.PullOptions{RemoteName: "origin", ClientOptions: []client.Option{mcLoader(w)}})
-		}},
+		}, "", false},
 		{"Pull(fast-forward) with an unstaged edit", "Pull", dirtyA, func(r *git.Repository, w *mcfs.World) error {
 			return wtOf(r).Pull(&git.PullOptions{RemoteName: "origin", ClientOptions: []client.Option{mcLoader(w)}})
-		}},
+		}, "", false},
 		{"Pull(fast-forward, already fetched) with an unstaged edit", "Pull", func(w *mcfs.World) {
 			dirtyA(w)
 			r, _, _ := openRepo(w, "/wt/.git", "/wt")
@@ -184,7 +227,7 @@ func runC29(c *fw.Ctx) {
 			}
 		}, func(r *git.Repository, w *mcfs.World) error {
 			return wtOf(r).Pull(&git.PullOptions{RemoteName: "origin", ClientOptions: []client.Option{mcLoader(w)}})
-		}},
+		}, "", false},
 		{"Pull(non fast-forward, already fetched)", "Pull", func(w *mcfs.World) {
 			diverge(w)
 			r, _, _ := openRepo(w, "/wt/.git", "/wt")
@@ -193,18 +236,220 @@ func runC29(c *fw.Ctx) {
 			}
 		}, func(r *git.Repository, w *mcfs.World) error {
 			return wtOf(r).Pull(&git.PullOptions{RemoteName: "origin", ClientOptions: []client.Option{mcLoader(w)}})
-		}},
+		}, "", false},
 		{"Pull(fast-forward) clean", "Pull", nil, func(r *git.Repository, w *mcfs.World) error {
 			return wtOf(r).Pull(&git.PullOptions{RemoteName: "origin", ClientOptions: []client.Option{mcLoader(w)}})
-		}},
+		}, "", false},
 	}
+	missing := plumbing.NewHash("cccccccccccccccccccccccccccccccccccccccc")
+	pull := func(r *git.Repository, w *mcfs.World) error {
+		return wtOf(r).Pull(&git.PullOptions{RemoteName: "origin", ClientOptions: []client.Option{mcLoader(w)}})
+	}
+	add := func(name, kind, fkind string, prep func(w *mcfs.World), run func(r *git.Repository, w *mcfs.World) error) {
+		scenarios = append(scenarios, c29Scenario{name, kind, prep, run, fkind, true})
+	}
+	// --- every way the worktree can be "not clean", against the operations that refuse on it
+	dirty := []struct {
+		name string
+		f    func(w *mcfs.World)
+	}{
+		{"a same-size edit of a", func(w *mcfs.World) { w.AdvanceClock(3); w.WriteFile("/wt/a", []byte("aX\n"), false) }},
+		{"an edit of d/b (subdirectory)", func(w *mcfs.World) { w.AdvanceClock(3); w.WriteFile("/wt/d/b", []byte("local edit in a subdirectory\n"), false) }},
+		{"tracked a deleted", func(w *mcfs.World) { w.AdvanceClock(3); w.RemoveSetup("/wt/a") }},
+		{"a made executable", func(w *mcfs.World) { w.AdvanceClock(3); w.WriteFile("/wt/a", []byte("a2\n"), true) }},
+		{"a replaced by a symlink", func(w *mcfs.World) { w.AdvanceClock(3); w.RemoveSetup("/wt/a"); w.SymlinkSetup("x", "/wt/a") }},
+		{"an edit of x (not touched by the target)", func(w *mcfs.World) { w.AdvanceClock(3); w.WriteFile("/wt/x", []byte("local edit\n"), true) }},
+	}
+	for _, d := range dirty {
+		d := d
+		add("Checkout(branch b) with "+d.name, "Checkout", "", d.f, func(r *git.Repository, w *mcfs.World) error {
+			return wtOf(r).Checkout(&git.CheckoutOptions{Branch: "refs/heads/b"})
+		})
+		add("Pull(fast-forward) with "+d.name, "Pull", "", d.f, pull)
+		add("Reset(merge, c1) with "+d.name, "Reset(merge)", "", d.f, func(r *git.Repository, w *mcfs.World) error {
+			return wtOf(r).Reset(&git.ResetOptions{Mode: git.MergeReset, Commit: c1})
+		})
+	}
+	// --- the other shapes of a checkout target, with an unstaged edit
+	add("Checkout(-b new at HEAD) with an unstaged edit", "Checkout(create)", "", dirtyA, func(r *git.Repository, w *mcfs.World) error {
+		return wtOf(r).Checkout(&git.CheckoutOptions{Branch: "refs/heads/new", Create: true})
+	})
+	add("Checkout(tag v1 by name) with an unstaged edit", "Checkout", "", dirtyA, func(r *git.Repository, w *mcfs.World) error {
+		return wtOf(r).Checkout(&git.CheckoutOptions{Branch: "refs/tags/v1"})
+	})
+	add("Checkout(remote-tracking branch) with an unstaged edit", "Checkout", "", dirtyA, func(r *git.Repository, w *mcfs.World) error {
+		return wtOf(r).Checkout(&git.CheckoutOptions{Branch: "refs/remotes/origin/b"})
+	})
+	add("Checkout(hash of the annotated tag) with an unstaged edit", "Checkout", "", dirtyA, func(r *git.Repository, w *mcfs.World) error {
+		return wtOf(r).Checkout(&git.CheckoutOptions{Hash: plumbing.NewHash(info.tag)})
+	})
+	add("Checkout(branch b, sparse directories) with an unstaged edit", "Checkout", "", dirtyA, func(r *git.Repository, w *mcfs.World) error {
+		return wtOf(r).Checkout(&git.CheckoutOptions{Branch: "refs/heads/b", SparseCheckoutDirectories: []string{"d"}})
+	})
+	// --- a target that turns out to be unusable only after the first steps
+	add("Checkout(-b new, hash of a missing object)", "Checkout(create, unusable target)", "Checkout(create)", nil, func(r *git.Repository, w *mcfs.World) error {
+		return wtOf(r).Checkout(&git.CheckoutOptions{Branch: "refs/heads/new", Create: true, Hash: missing})
+	})
+	add("Checkout(-b new, hash of a tree)", "Checkout(create, unusable target)", "Checkout(create)", nil, func(r *git.Repository, w *mcfs.World) error {
+		co, err := r.CommitObject(c1)
+		if err != nil {
+			fw.Abort("c1: %v", err)
+		}
+		return wtOf(r).Checkout(&git.CheckoutOptions{Branch: "refs/heads/new", Create: true, Hash: co.TreeHash})
+	})
+	add("Checkout(-b with an invalid branch name)", "Checkout(create)", "", nil, func(r *git.Repository, w *mcfs.World) error {
+		return wtOf(r).Checkout(&git.CheckoutOptions{Branch: "refs/heads/bad..name", Create: true})
+	})
+	add("Checkout(branch b, sparse directory that does not exist)", "Checkout(sparse, missing directory)", "Checkout", nil, func(r *git.Repository, w *mcfs.World) error {
+		return wtOf(r).Checkout(&git.CheckoutOptions{Branch: "refs/heads/b", SparseCheckoutDirectories: []string{"no-such-dir"}})
+	})
+	add("Reset(hard, c1, sparse directory that does not exist)", "Reset(hard)", "", nil, func(r *git.Repository, w *mcfs.World) error {
+		return wtOf(r).Reset(&git.ResetOptions{Mode: git.HardReset, Commit: c1, SparseDirs: []string{"no-such-dir"}})
+	})
+	add("Reset(soft, missing object)", "Reset(soft)", "", nil, func(r *git.Repository, w *mcfs.World) error {
+		return wtOf(r).Reset(&git.ResetOptions{Mode: git.SoftReset, Commit: missing})
+	})
+	add("Reset(mixed, hash of a tree)", "Reset(mixed)", "", nil, func(r *git.Repository, w *mcfs.World) error {
+		co, err := r.CommitObject(c1)
+		if err != nil {
+			fw.Abort("c1: %v", err)
+		}
+		return wtOf(r).Reset(&git.ResetOptions{Mode: git.MixedReset, Commit: co.TreeHash})
+	})
+	// --- commits whose objects are incomplete (partial clone, damaged store): the commit itself is there
+	aBlob, bTree := "", ""
+	{
+		r, _, _ := openRepo(base, "/wt/.git", "/wt")
+		co, err := r.CommitObject(c2)
+		if err != nil {
+			fw.Abort("c2: %v", err)
+		}
+		t, err := co.Tree()
+		if err != nil {
+			fw.Abort("c2 tree: %v", err)
+		}
+		for _, e := range t.Entries {
+			if e.Name == "a" {
+				aBlob = e.Hash.String()
+			}
+			if e.Name == "d" {
+				bTree = e.Hash.String()
+			}
+		}
+	}
+	incomplete := []struct {
+		name    string
+		entries [][3]string
+	}{
+		{"a blob is missing", [][3]string{{"100644", "a", aBlob}, {"40000", "d", bTree}, {"100644", "m", "dddddddddddddddddddddddddddddddddddddddd"}}},
+		{"a subtree is missing", [][3]string{{"100644", "a", aBlob}, {"40000", "d", "dddddddddddddddddddddddddddddddddddddddd"}}},
+		{"a path is not allowed in a worktree", [][3]string{{"100644", ".git", aBlob}, {"100644", "a", aBlob}, {"40000", "d", bTree}}},
+	}
+	for _, ic := range incomplete {
+		ic := ic
+		badOf := func(r *git.Repository) plumbing.Hash {
+			ref, err := r.Reference("refs/heads/bad", true)
+			if err != nil {
+				fw.Abort("refs/heads/bad: %v", err)
+			}
+			return ref.Hash()
+		}
+		prep := func(w *mcfs.World) {
+			bad := c29Commit(w, c2, ic.entries)
+			r, _, _ := openRepo(w, "/wt/.git", "/wt")
+			if err := r.Storer.SetReference(plumbing.NewHashReference("refs/heads/bad", bad)); err != nil {
+				fw.Abort("prep ref: %v", err)
+			}
+		}
+		add("Reset(hard) to a commit of which "+ic.name, "Reset(hard, incomplete commit)", "Reset(hard)", prep, func(r *git.Repository, w *mcfs.World) error {
+			return wtOf(r).Reset(&git.ResetOptions{Mode: git.HardReset, Commit: badOf(r)})
+		})
+		add("Reset(mixed) to a commit of which "+ic.name, "Reset(mixed, incomplete commit)", "Reset(mixed)", prep, func(r *git.Repository, w *mcfs.World) error {
+			return wtOf(r).Reset(&git.ResetOptions{Mode: git.MixedReset, Commit: badOf(r)})
+		})
+		add("Checkout(branch) of a commit of which "+ic.name, "Checkout(incomplete commit)", "Checkout", prep, func(r *git.Repository, w *mcfs.World) error {
+			return wtOf(r).Checkout(&git.CheckoutOptions{Branch: "refs/heads/bad"})
+		})
+		add("Merge(fast-forward) to a commit of which "+ic.name, "Merge", "", prep, func(r *git.Repository, w *mcfs.World) error {
+			return r.Merge(*plumbing.NewHashReference("refs/heads/bad", badOf(r)), git.MergeOptions{Strategy: git.FastForwardMerge})
+		})
+	}
+	// --- detached HEAD (HEAD holds a hash): the same refusals take the other branch of setHEADCommit
+	detach := func(w *mcfs.World) {
+		r, _, _ := openRepo(w, "/wt/.git", "/wt")
+		if err := wtOf(r).Checkout(&git.CheckoutOptions{Hash: c2}); err != nil {
+			fw.Abort("prep detach: %v", err)
+		}
+		dirtyA(w)
+	}
+	add("Checkout(branch b) with an unstaged edit, HEAD detached", "Checkout", "", detach, func(r *git.Repository, w *mcfs.World) error {
+		return wtOf(r).Checkout(&git.CheckoutOptions{Branch: "refs/heads/b"})
+	})
+	add("Checkout(-b new, c1) with an unstaged edit, HEAD detached", "Checkout(create)", "", detach, func(r *git.Repository, w *mcfs.World) error {
+		return wtOf(r).Checkout(&git.CheckoutOptions{Branch: "refs/heads/new", Create: true, Hash: c1})
+	})
+	add("Reset(merge, c1) with an unstaged edit, HEAD detached", "Reset(merge)", "", detach, func(r *git.Repository, w *mcfs.World) error {
+		return wtOf(r).Reset(&git.ResetOptions{Mode: git.MergeReset, Commit: c1})
+	})
+	add("Reset(keep, c1) with a conflicting edit, HEAD detached", "Reset(keep)", "", detach, func(r *git.Repository, w *mcfs.World) error {
+		return wtOf(r).Reset(&git.ResetOptions{Mode: git.KeepReset, Commit: c1})
+	})
+	add("Pull with an unstaged edit, HEAD detached", "Pull", "", detach, pull)
+	// --- pull: the other refusals
+	add("Pull(reference that the remote does not have)", "Pull", "", nil, func(r *git.Repository, w *mcfs.World) error {
+		return wtOf(r).Pull(&git.PullOptions{RemoteName: "origin", ReferenceName: "refs/heads/nope", ClientOptions: []client.Option{mcLoader(w)}})
+	})
+	add("Pull(remote that is not configured)", "Pull", "", dirtyA, func(r *git.Repository, w *mcfs.World) error {
+		return wtOf(r).Pull(&git.PullOptions{RemoteName: "nope", ClientOptions: []client.Option{mcLoader(w)}})
+	})
+	add("Pull(fast-forward, forced) with an unstaged edit", "Pull", "", dirtyA, func(r *git.Repository, w *mcfs.World) error {
+		return wtOf(r).Pull(&git.PullOptions{RemoteName: "origin", Force: true, ClientOptions: []client.Option{mcLoader(w)}})
+	})
+	add("Pull(fast-forward, branch b checked out) with an unstaged edit", "Pull", "", func(w *mcfs.World) {
+		r, _, _ := openRepo(w, "/wt/.git", "/wt")
+		if err := wtOf(r).Checkout(&git.CheckoutOptions{Branch: "refs/heads/b"}); err != nil {
+			fw.Abort("prep checkout b: %v", err)
+		}
+		w.AdvanceClock(3)
+		w.WriteFile("/wt/a", []byte("local uncommitted edit\n"), false)
+	}, func(r *git.Repository, w *mcfs.World) error {
+		return wtOf(r).Pull(&git.PullOptions{RemoteName: "origin", ReferenceName: "refs/heads/main", ClientOptions: []client.Option{mcLoader(w)}})
+	})
+	// --- commit / add / restore: the other refusals
+	add("Commit(all) of an edit when signing fails", "Commit(all, signing fails)", "Commit", dirtyA, func(r *git.Repository, w *mcfs.World) error {
+		_, err := wtOf(r).Commit("m\n", &git.CommitOptions{Author: fixedSig, All: true, Signer: c29FailingSigner{}})
+		return err
+	})
+	add("Commit of a staged file when signing fails", "Commit", "", stagedZ, func(r *git.Repository, w *mcfs.World) error {
+		_, err := wtOf(r).Commit("m\n", &git.CommitOptions{Author: fixedSig, Signer: c29FailingSigner{}})
+		return err
+	})
+	add("Commit(all) with nothing changed", "Commit", "", nil, func(r *git.Repository, w *mcfs.World) error {
+		_, err := wtOf(r).Commit("m\n", &git.CommitOptions{Author: fixedSig, All: true})
+		return err
+	})
+	add("Commit(all and amend)", "Commit", "", dirtyA, func(r *git.Repository, w *mcfs.World) error {
+		_, err := wtOf(r).Commit("m\n", &git.CommitOptions{Author: fixedSig, All: true, Amend: true})
+		return err
+	})
+	add("Commit(all) of an edit onto a parent that does not exist", "Commit(all, missing parent)", "Commit", dirtyA, func(r *git.Repository, w *mcfs.World) error {
+		_, err := wtOf(r).Commit("m\n", &git.CommitOptions{Author: fixedSig, All: true, Parents: []plumbing.Hash{missing}})
+		return err
+	})
+	add("AddGlob(no match)", "Add", "", dirtyA, func(r *git.Repository, w *mcfs.World) error { return wtOf(r).AddGlob("nothing-*") })
+	add("Add(options: all and a path)", "Add", "", dirtyA, func(r *git.Repository, w *mcfs.World) error {
+		return wtOf(r).AddWithOptions(&git.AddOptions{All: true, Path: "a"})
+	})
+	add("Restore(no paths)", "Restore", "", dirtyA, func(r *git.Repository, w *mcfs.World) error {
+		return wtOf(r).Restore(&git.RestoreOptions{Staged: true, Worktree: true})
+	})
 	_ = c2
 	var names []string
 	for _, s := range scenarios {
 		names = append(names, s.name)
 	}
 	c.Bound("scenarios", names)
-	c.SetRule("25 porcelain scenarios (checkout / checkout -b / reset merge|keep|hard / commit / add / restore / merge / pull, each engineered to be refused, plus successful counterparts) on a git-written repository over mcfs; each is run (a) as is and (b) once per filesystem call of the operation with that call failing (EIO; every mutating call and every open/stat of a worktree file): whenever the call returns an error, HEAD, every reference, the decoded index and the content of every tracked worktree file are compared with the state before the call; distinct = (scenario, fault site, outcome) classes")
+	c.SetRule(fmt.Sprint(len(scenarios))+" porcelain scenarios (checkout / checkout -b / reset merge|keep|hard|mixed|soft / commit / add / restore / merge / pull, each engineered to be refused: six kinds of unclean worktree, every shape of checkout target, HEAD symbolic or detached, unusable targets (missing object, tree instead of commit, missing sparse directory), commits whose blob / subtree is missing or whose tree holds a forbidden path, failing signer, invalid options; plus successful counterparts) on a git-written repository over mcfs; each is run (a) as is and (b) once per filesystem call of the operation with that call failing (EIO; every mutating call and every open/stat of a worktree file): whenever the call returns an error, HEAD, every reference, the decoded index and the content of every tracked worktree file are compared with the state before the call; distinct = (scenario, fault site, outcome) classes")
 	c.Assume("one injected fault per run (thorough: also every pair of faults for operations with <= 60 fault sites); objects written before a failure are not part of the statement (only HEAD, branches, index, tracked files)")
 	type job struct {
 		si    int
@@ -213,13 +458,14 @@ func runC29(c *fw.Ctx) {
 	var jobs []job
 	counts := make([]int, len(scenarios))
 	prepped := make([]*mcfs.World, len(scenarios))
-	for si, s := range scenarios {
+	// preparation and the dry run that counts the fault sites are independent per scenario: done in parallel
+	c.ParDo(len(scenarios), 0, func(si int) {
+		s := scenarios[si]
 		w := base.Clone()
 		if s.prep != nil {
 			s.prep(w)
 		}
 		prepped[si] = w
-		// dry run to count fault sites
 		d := w.Clone()
 		n := 0
 		d.SetHook(func(op *mcfs.Op) error {
@@ -237,7 +483,16 @@ func runC29(c *fw.Ctx) {
 			s.run(r, d)
 		}()
 		counts[si] = n
+	})
+	for si, s := range scenarios {
+		if prepped[si] == nil {
+			continue // deadline reached during preparation
+		}
+		n := counts[si]
 		jobs = append(jobs, job{si, -1})
+		if s.thoroughFaults && !c.Thorough() {
+			continue
+		}
 		for f := 0; f < n; f++ {
 			jobs = append(jobs, job{si, f})
 		}
@@ -326,11 +581,14 @@ func runC29(c *fw.Ctx) {
 		if len(changed) == 0 {
 			return
 		}
-		how := "refused"
+		how, kind := "refused", s.kind
 		if j.fault >= 0 {
 			how = "failed on an injected I/O error"
+			if s.fkind != "" {
+				kind = s.fkind
+			}
 		}
-		c.Fail(fmt.Sprintf("%s %s but changed: %s", s.kind, how, strings.Join(changed, ", ")),
+		c.Fail(fmt.Sprintf("%s %s but changed: %s", kind, how, strings.Join(changed, ", ")),
 			fmt.Sprintf("scenario %q (%s) returned %q, yet %s differ from the state before the call", s.name, site, operr, strings.Join(changed, ", ")),
 			map[string]any{"scenario": s.name, "fault": site, "error": operr.Error(), "changed": changed, "before": before, "after": after})
 		if i%29 == 0 {
